@@ -403,6 +403,46 @@ def wl_simplify_split(ctx, rng, case_no):
     ctx.case_done(("simp", tuple(_seg_repr(segs))), len(segs) >= 2, wit)
 
 
+def wl_repo_suite_under_contracts(ctx):
+    """The repository's own test-suite as a workload: 440 realistic call sequences run with the contract catalogue
+    (rv/monitor/contracts.py) installed on the real functions, so every nested call is checked."""
+    if ctx.shard != 0:
+        return
+    import json
+    import os
+    import subprocess
+    import sys
+    import tempfile
+    from rv.core import env
+    tests = os.path.join(env.REPO, "tests")
+    if not os.path.isdir(tests):
+        ctx.count("repo_suite_skipped_no_tests_dir")
+        return
+    fd, path = tempfile.mkstemp(prefix="rv-contracts-", suffix=".json")
+    os.close(fd)
+    try:
+        e = dict(os.environ, RV_CONTRACT_REPORT=path, PYTHONPATH=env.VERIF + os.pathsep + env.REPO)
+        r = subprocess.run([sys.executable, "-B", "-m", "pytest", "-q", "-p", "no:cacheprovider", "-p",
+                            "rv.monitor.pytest_plugin", "--timeout=900", "-x", "-q", tests, "--deselect", "none",
+                            "-o", "addopts=", "--continue-on-collection-errors", "--maxfail=1000"],
+                           cwd=env.REPO, env=e, capture_output=True, text=True, timeout=1200)
+        try:
+            rep = json.load(open(path))
+        except Exception:
+            ctx.mark_inconclusive("contract report not written: %s" % r.stdout[-300:])
+            return
+    finally:
+        try:
+            os.unlink(path)
+        except OSError:
+            pass
+    for name, n in rep.get("evaluations", {}).items():
+        ctx.count("contract:" + name, n)
+    ctx.evaluations += sum(rep.get("evaluations", {}).values())
+    for v in rep.get("violations", []):
+        ctx.violation("contract-broken-under-repo-suite:" + v["contract"].split(":")[0], v)
+
+
 def workloads(tier):
     big = tier == "thorough"
     return [
@@ -415,6 +455,7 @@ def workloads(tier):
         WL("split_and_crop_lines", wl_split_crop, 300000 if big else 20000),
         WL("set_shape", wl_set_shape, 200000 if big else 10000),
         WL("simplify_split_lines", wl_simplify_split, 300000 if big else 20000),
+        WL("repo_suite_under_contracts", wl_repo_suite_under_contracts, kind="custom"),
     ]
 
 LEVEL_TEXT = ("Runs the real rich.cells and Segment helpers; get_character_cell_size is compared with a "
